@@ -41,6 +41,11 @@ Verdict(e) ==
        (* many streams of one-record batches pooled at once, several rounds: e.w = number of rounds in which the *)
        (* batch numbers out of Pool were not 0..N-1 each exactly once (the order contract under real timing)     *)
        IF e.w # 0 THEN "order-contract" ELSE "ok"
+  ELSE IF e.op = "limitmem" THEN
+       (* LimitMemory under a limit that is never met: the bounded wait ends, every batch goes through *)
+       IF ~OrderContract(out) THEN "order-contract"
+       ELSE IF Records(out) # Flat(inp) THEN "records"
+       ELSE "ok"
   ELSE IF e.op = "pool_workers" THEN
        IF ~OrderContract(out) THEN "order-contract"
        ELSE IF Len(out) # Len(inp) THEN "batch-count"
